@@ -158,6 +158,34 @@ def run_case(case: dict) -> list[tuple[str, str]]:
                                   f"{len(fr)} bytes, stream_frames {len(gb)} bytes"))
             except Exception as e:  # noqa: BLE001
                 fails.append(("flat-entry-raised", f"{type(e).__name__}: {e}"))
+            # the same statements as plain tuples of terms (what rdflib's own iterators yield)
+            opts = DR.make_options(cls, preset, case["frame_size"], True, generalized=False,
+                                   rdf_star=False)
+            try:
+                rt = DR.r_write(seq, cls, opts, "flat_to_frames_tuples")
+                if rt != rb:
+                    fails.append(("flat-entry-differs",
+                                  f"rdflib flat_stream_to_frames fed plain tuples wrote {len(rt)} "
+                                  f"bytes, fed Triple/Quad objects {len(rb)} bytes"))
+            except Exception as e:  # noqa: BLE001
+                fails.append(("flat-entry-raised", f"rdflib, plain tuples: {type(e).__name__}: {e}"))
+        else:
+            # an explicit GraphStream fed the quads themselves (the library groups them)
+            from pyjelly.integrations.generic import serialize as gser  # noqa: PLC0415
+
+            opts = DR.make_options(cls, preset, case["frame_size"], True, generalized=False,
+                                   rdf_star=False)
+            try:
+                g3 = DR.frames_to_bytes(gser.stream_frames(
+                    DR.g_stream(cls, opts), (T.st_to_generic(s) for s in seq)), True)
+                if g3 != gb:
+                    fails.append(("serializers-differ",
+                                  f"generic GraphStream fed quads one by one wrote {len(g3)} bytes; "
+                                  f"one graph() call per run of equal graph names (and rdflib) "
+                                  f"{len(gb)} bytes"))
+            except Exception as e:  # noqa: BLE001
+                fails.append(("serialize-raised", f"generic GraphStream fed quads: "
+                                                  f"{type(e).__name__}: {e}"))
         fails += agree(parse_all(gb))
         if gb != rb:
             fails += agree(parse_all(rb))
